@@ -101,7 +101,7 @@ class C14(framework.PropertyCheck):
 
     def cases(self, rng, tier, n):
         ops = ['first', 'second', 'last', 'rest', 'length', 'in', 'cat', 'append', 'map', 'fold', 'zip', 'range', 'max', 'min', 'average', 'sum',
-               'slice1', 'slice2', 'reverse', 'filter', 'partition', 'sort', 'list']
+               'slice1', 'slice2', 'reverse', 'filter', 'partition', 'sort', 'list', 'catlit']
         for i in range(n):
             if i % 4 == 3:
                 hist = []
@@ -134,6 +134,10 @@ class C14(framework.PropertyCheck):
             else:
                 xs = self.gen_list(rng)
             c = {'t': 'list', 'op': op, 'xs': xs}
+            if rng.random() < 0.25:
+                c['computed'] = True        # xs is the result of a computation (not a quoted constant): it is a value like any other and never changes
+            if op == 'catlit':
+                c['a'], c['b'], c['shape'] = rng.randint(0, 9), rng.randint(0, 9), rng.choice(['tail', 'around', 'head'])
             if op in ('cat', 'zip'):
                 c['ys'] = self.gen_list(rng)
             if op in ('in', 'append'):
@@ -184,6 +188,8 @@ class C14(framework.PropertyCheck):
             return list(xs)
         if op == 'in':
             return any(_eq(c['x'], y) for y in xs)
+        if op == 'catlit':
+            return {'tail': xs + [c['a'], c['b']], 'around': [c['a']] + xs + [c['b']], 'head': [c['a'], c['b']] + xs}[c['shape']]
         if op == 'cat':
             return xs + c['ys']
         if op == 'append':
@@ -232,6 +238,9 @@ class C14(framework.PropertyCheck):
             return '(list ' + ' '.join(q(x) if isinstance(x, (list, tuple)) else lit(x) for x in c['xs']) + ')'
         if op == 'in':
             return f'(in {q(c["x"])} xs)'
+        if op == 'catlit':
+            # several numeric literals next to a list operand: each is an element of its own
+            return {'tail': f'(+ xs {c["a"]} {c["b"]})', 'around': f'(+ {c["a"]} xs {c["b"]})', 'head': f'(+ {c["a"]} {c["b"]} xs)'}[c['shape']]
         if op == 'cat':
             return '(+ xs ys)'
         if op == 'append':
@@ -254,7 +263,10 @@ class C14(framework.PropertyCheck):
 
     def _plan(self, c):
         if c['t'] == 'list':
-            steps = [('eval', 'eor', f"(define xs '{lit(c['xs'])})"), ('eval', 'eor', '(define xs2 xs)')]
+            if c.get('computed'):
+                steps = [('eval', 'eor', f"(define xs (map (fn [q] q) '{lit(c['xs'])}))"), ('eval', 'eor', '(define xs2 xs)')]
+            else:
+                steps = [('eval', 'eor', f"(define xs '{lit(c['xs'])})"), ('eval', 'eor', '(define xs2 xs)')]
             if 'ys' in c:
                 steps += [('eval', 'eor', f"(define ys '{lit(c['ys'])})"), ('eval', 'eor', '(define ys2 ys)')]
             steps.append(('eval', 'eor', f'(list {self.call(c)})'))
